@@ -42,6 +42,7 @@ MONITORS = {
     18: ("withdrawable changed by something else than entries maturing at this height minus withdrawals", []),
     19: ("a successful UNSTAKE left no maturing entry at height + maturity", []),
     20: ("a STAKE/UNSTAKE/WITHDRAW naming a frozen validator was accepted", []),
+    21: ("the penalty taken by a GUILTY verdict differs from the configured share of the convicted validator's own total", []),
 }
 MM_CODES = {1: "ok/fail", 2: "balance change", 3: "st__e_", 4: "st__t_", 5: "st__d_e_", 6: "st__d_b_", 7: "st__m_", 8: "v_ record"}
 
@@ -83,7 +84,7 @@ def payload(cases, ci, step):
 
 
 # monitors whose expected value comes from the MODEL's state (maturing entries, pending penalty, penalised totals)
-MODEL_DEPENDENT = {13, 14, 15, 17, 18, 19}
+MODEL_DEPENDENT = {13, 14, 15, 17, 18, 19, 21}
 
 
 def judge(ctx, cases, mm, mon, trg):
@@ -180,15 +181,16 @@ def run(ctx):
     clean_cases = len(cases) - len({c for (c, _, _) in trg})
     ctx.coverage.update({
         "evaluations": rep["steps"], "distinct_nontrivial": rep["txs"],
-        "rule": "10 scripted histories (life cycle, several unstakes of one delegator maturing at the same height from the same and from another validator, the former refuted-theorem witnesses, verdict+freeze, maturity option change on a genesis "
+        "rule": "11 scripted histories (life cycle, GUILTY verdicts on both validators of a stake account that backs two validators, several unstakes of one delegator maturing at the same height from the same and from another validator, the former refuted-theorem witnesses, verdict+freeze, maturity option change on a genesis "
                 "with maturing amounts) + seeded random histories of 14-23 blocks over 6 validators (4 genesis, 2 candidates) and their "
                 "stake accounts (candidates partly staked from a genesis validator's account; bursts of 2-4 unstakes of one delegator per block): stake/unstake/withdraw with amounts around 0, the balance (1,000,000 OLT), the validator total, and in a "
-                "third of the histories 2^63-1, 2^64, 2^64+1000, 2^65, -1, -100, -2^64 (all rejected since fix 48c76fc); a GUILTY verdict in half of them; maturity 0..5; "
+                "third of the histories 2^63-1, 2^64, 2^64+1000, 2^65, -1, -100, -2^64 (all rejected since fix 48c76fc); a GUILTY verdict in half of them (in two thirds of those the convicted validator's stake account backs a second validator: larger or smaller share); maturity 0..5; "
                 "evaluations = model steps compared, distinct = staking transactions delivered",
         "traces_validated_against_impl": rep["cases"], "histories": rep["cases"], "corpus_replays": ncorpus, "histories_without_any_trigger": clean_cases,
         "crashed_histories": rep.get("crashed_histories") or [],
         "restarts": rep.get("restarts"), "restarts_between_endblock_and_commit": rep.get("restarts_between_endblock_and_commit"),
         "restarts_after_verdict_block": rep.get("restarts_after_verdict_block"),
+        "verdicts_on_shared_stake_account": rep.get("verdicts_on_shared_stake_account"),
         "kind_histogram": rep["kind_histogram"], "outcome_histogram": rep["outcome_histogram"],
         "amount_class_histogram": rep["amount_class_histogram"], "verdicts": rep["verdicts"],
         "model_mismatches": len(mm), "model_mismatches_outside_known_triggers": len(bad),
